@@ -25,7 +25,8 @@ def gen_reply(R, node=b't1', hostile=0.15, huge=True):
     out = b''
     for _ in range(R.choice([0, 0, 1, 1, 2, 3, 6])):
         k = R.random()
-        if k < 0.3: out += b'303 ' + R.choice([node, b't2', node + b'x', b'T1']) + b': ' + R.choice([b'on', b'off', b'unknown', b'on ', b'ON', b'71']) + b'\r\n'
+        if k < 0.3: out += b'303 ' + R.choice([node, b't2', node + b'x', b'T1']) + b': ' + R.choice([b'on', b'off', b'unknown', b'on ', b'ON', b'71', b'o\x00n', b'of\x00f', b'\x00', b'off\x00']) + b'\r\n'
+        elif k < 0.33: out += R.choice([b'\x00303 ' + node + b': on', b'303 ' + node[:1] + b'\x00' + node[1:] + b': off', b'303\x00', b'\x00']) + b'\r\n'     # NUL early in a line: the C string ends there
         elif k < 0.5: out += b'307 ' + R.choice([b't1', b't2', b'n[0-3]', b'a b', b'']) + b'\r\n'
         elif k < 0.65: out += b'302 on:      t[1-2]\r\n'
         elif k < 0.8: out += b'305 send(d0): \'on 1\\n\'\r\n'
@@ -161,6 +162,17 @@ def check(op, c, V, st, i):
         if api == 'connect': return
         # the reply is what precedes the first point at which the received bytes end in the prompt (at a read boundary); we
         # check the conforming case only: exactly one 1xx/2xx line, stream = lines + prompt, no NUL
+        if api == 'status' and rc == 0:
+            # any stream, conforming or not: ON / OFF only if some line of the reply, read as the C string it is stored as (it ends at
+            # its first NUL), *is* `303 <node>: on` / `: off`
+            node = bytes.fromhex(op.split(' ')[2])
+            ms = re.search(r'state=(-?\d+)', c)
+            if ms and int(ms.group(1)) in (1, 2):
+                cand = [l.rstrip(b'\r').split(b'\0')[0] for l in stream.split(b'\n')]
+                want_line = b'303 ' + node + (b': on' if int(ms.group(1)) == 2 else b': off')
+                st['status answers ON/OFF checked against the lines of the stream'] += 1
+                if want_line not in cand:
+                    V.append(dict(sig='C16 pm_node_status reports a state no line of the reply gives for that node', at=i, state=int(ms.group(1)), lines=[repr(l[:40]) for l in cand][:8]))
         pos = stream.find(PROMPT)
         if pos < 0 or not stream.endswith(PROMPT) or stream.count(PROMPT) != 1 or b'\0' in stream: return
         body = stream[:pos]
